@@ -41,6 +41,8 @@ def run(ctx):
     ctx.tlc("MC_Location", "MC_Location_" + ctx.tier, replay="snippet", coverage=False)
     ctx.tlc("MC_Location", "MC_Location_multi", replay="snippet", coverage=False)
     ctx.tlc("MC_Notes", "MC_Notes", replay="snippet-notes", coverage=False)
+    # a single return value / a parameter in every form (plain, streamed, tagged, both) x four kinds of gaps: the span from the text
+    ctx.tlc("MC_RetSpans", "MC_RetSpans", replay="rules", coverage=False)
     # (G d) doc comments: the families of C16, looked at for locations only
     spans_only = {"VERIF_DOC_SPANS": "only"}
     for cfg in ("dedent2", "dedent3" if ctx.quick else "dedent3all", "tags1", "tags2", "links", "malformed"):
